@@ -165,13 +165,17 @@ def scenario_fresh(prog, mode, with_accessors=True, only_init=False):
     return outs
 
 
-def scenario_reuse(prog, mode, first_choices_all_true=True):
-    """setup(); solve(); solve(): the second solve starts from history (STALE). Returns list of Outcome of the 2nd solve."""
+def scenario_reuse(prog, mode, first_choices_all_true=True, first_tols=None):
+    """setup(); solve(); solve(): the second solve starts from history (STALE). Returns list of Outcome of the 2nd solve.
+    first_tols=(abs, rel): the first solve runs with these tolerance options and the caller changes them to the mode's
+    before the second solve (options may be changed between two solves without a setup())."""
     outs = []
     # first: which members can the first solve write in this mode (any path)?
     written = set()
     firsts = []
     mode1 = dict(mode, max_iterations=max(2, mode.get("max_iterations", 1)))
+    if first_tols is not None:
+        mode1["abs_tol"], mode1["rel_tol"] = first_tols
     for dom in drv.run_paths(prog, mode1, lambda d, it: (run_setup(d, it), setattr(d, "field_writes", set()),
                                                           it.call_function(prog.fn("GMGPolar::solve"), d.gm, []))):
         written |= dom.field_writes
@@ -187,10 +191,16 @@ def scenario_reuse(prog, mode, first_choices_all_true=True):
         # comes from the full exploration above
         dom.policy = False
         dom.gm.f["max_iterations_"].set(max(2, mode.get("max_iterations", 1)))
+        if first_tols is not None:
+            dom.gm.f["absolute_tolerance_"].set(drv.OptVal(first_tols[0], "absolute_tolerance_"))
+            dom.gm.f["relative_tolerance_"].set(drv.OptVal(first_tols[1], "relative_tolerance_"))
         it.call_function(prog.fn("GMGPolar::solve"), dom.gm, [])
         dom.policy = None
         dom.nofork_pred = scalar_has_stale
         dom.gm.f["max_iterations_"].set(mode.get("max_iterations", 1))
+        if first_tols is not None:
+            dom.gm.f["absolute_tolerance_"].set(drv.OptVal(mode.get("abs_tol", True), "absolute_tolerance_"))
+            dom.gm.f["relative_tolerance_"].set(drv.OptVal(mode.get("rel_tol", True), "relative_tolerance_"))
         n_first[0] = dom.n_choice
         mark_stale_after_solve(dom, written, rhs0)
         dom.events_first = list(dom.events)
